@@ -32,7 +32,7 @@ pub struct Applied {
     pub silent_in_sanity_no_target: bool,
 }
 
-pub const FAULTS: [&str; 52] = [
+pub const FAULTS: [&str; 56] = [
     "rdh_version",
     "rdh_header_size",
     "fee_reserved",
@@ -67,6 +67,10 @@ pub const FAULTS: [&str; 52] = [
     "tdh_reserved",
     "tdh_no_trigger",
     "tdh_id_choice_state",
+    "tdh_reserved_continuation",
+    "tdh_id_continuation",
+    "tdh_no_trigger_continuation",
+    "tdh_reserved_choice_state",
     "tdt_reserved",
     "tdt_id",
     "data_word_id",
@@ -453,6 +457,29 @@ pub fn apply(s: &mut Stream, name: &'static str, rng: &mut Rng) -> Option<Applie
                 w[1] &= 0b1110_0000; // trigger type 11:8 and internal trigger cleared
             },
         ),
+        // the same sanity rules on the TDH that continues a readout frame on the next page and on the TDH
+        // that follows a packet_done TDT / a no-data TDH (the implementation classifies these separately)
+        "tdh_reserved_continuation" => word_fault(s, rng, name, &["E40"], true, &|ws, i, _| is_cont_tdh(ws, i), &|w, g| {
+            match g.below(3) {
+                0 => w[1] |= 0x80,
+                1 => w[3] |= 0x10 << g.below(4),
+                _ => w[8] |= 1 << g.below(8),
+            }
+        }),
+        "tdh_id_continuation" => word_fault(s, rng, name, &["E40"], true, &|ws, i, _| is_cont_tdh(ws, i), &|w, g| {
+            w[9] = *g.pick(&[0xE9u8, 0xEA, 0x00, 0xE0, 0xF0])
+        }),
+        "tdh_no_trigger_continuation" => word_fault(s, rng, name, &["E40"], true, &|ws, i, _| is_cont_tdh(ws, i), &|w, _| {
+            w[0] = 0;
+            w[1] &= 0b1110_0000;
+        }),
+        "tdh_reserved_choice_state" => {
+            word_fault(s, rng, name, &["E40"], true, &|ws, i, _| is_choice_tdh(ws, i).is_some(), &|w, g| match g.below(3) {
+                0 => w[1] |= 0x80,
+                1 => w[3] |= 0x10 << g.below(4),
+                _ => w[8] |= 1 << g.below(8),
+            })
+        }
         "tdh_id_choice_state" => {
             let c = find_words(s, &|ws, i, _| is_choice_tdh(ws, i).is_some());
             if c.is_empty() {
